@@ -492,9 +492,27 @@ def c01_layers(tier, seed):
     b = dict(references='3 catalogue references (menu/lattice1400/exp families; ids 24, 3, 117)', queries_per_world=4,
              edit_depth=[0, 1] if tier == 'quick' else [0, 1, 2], index_menu='5-point' if tier == 'quick' else 'all indices (depth 1)',
              modes=list(MODES), worlds=len(ws))
+    # runs with the diagnostic plots switched on (-D): the plotting extensions see every row inside the worker before it is written
+    refs = std_refs()
+    dq = []
+    for j, (ri, s0, rev) in enumerate(((0, 8, False), (2, 20, True), (0, 30, True)) if tier == 'quick' else
+                                      ((0, 8, False), (2, 20, True), (0, 30, True), (1, 10, False), (2, 5, False), (1, 30, True))):
+        q = worlds.window_query(refs[ri], min(s0, len(refs[ri][2]) - 44), 42, rev)[0][2]
+        def wide(lo):       # first interval at or behind index lo that can lose 5 kb
+            return next(i for i in range(lo, len(q) - 1) if q[i + 1] - q[i] > 6500)
+        if not rev:
+            i1 = wide(11)
+            q = worlds.apply_edit(worlds.apply_edit(q, ('indel', i1, -5000.0)), ('indel', i1 + 13, 2500.0))
+        else:
+            i2 = wide(24)
+            q = worlds.apply_edit(worlds.apply_edit(q, ('indel', i2 - 13, 2500.0)), ('indel', i2, -5000.0))
+        dq.append((ri, worlds.as_map(QIDS[j % 3], q)))
+    dws = [dict(refs=[refs[ri]], queries=[m], args=['-D'], desc=['deletion then insertion, diagnostics on']) for ri, m in dq]
     return [WorldLayer('B:worlds', ws, judge_c01, bounds=b, cli_every=97,
                        rule='every record of every file (main,_1,_2) of every standard world in 4 modes; non-trivial = record is '
-                            'reverse-strand, second-pass or joined')]
+                            'reverse-strand, second-pass or joined'),
+            WorldLayer('B:diagnostics', dws, judge_c01, modes=('best',), bounds=dict(worlds=len(dws), modes=['best'], option='-D'),
+                       rule='%d molecules with a 5 kb deletion followed by a 2.5 kb insertion, aligned with the diagnostic plots enabled' % len(dws))]
 
 
 # ------------------------------------------------------------------------------------------------
